@@ -281,6 +281,29 @@ func (e *Engine) forceSorts() {
 			e.Sorts.SortOf(tn.Type())
 		}
 	}
+	re2 := regexp.MustCompile(`Slice<([a-z][a-z0-9]*)\.([A-Z][A-Za-z0-9]*)>`)
+	for _, m := range re2.FindAllStringSubmatch(e.Spec.Text+e.Spec.PreText, -1) {
+		tp := e.pkgByShortName(nil, m[1])
+		if p, ok := e.PkgByName[m[1]]; ok {
+			tp = p.Types
+		}
+		if tp == nil {
+			continue
+		}
+		if tn, ok := tp.Scope().Lookup(m[2]).(*types.TypeName); ok {
+			e.Sorts.SortOf(types.NewSlice(tn.Type()))
+		}
+	}
+	if strings.Contains(e.Spec.Text, "Slice<I.bpf.Instruction>") {
+		if bp := e.findPkg("golang.org/x/net/bpf"); bp != nil {
+			if o := bp.Scope().Lookup("Instruction"); o != nil {
+				e.Sorts.SortOf(types.NewSlice(o.Type()))
+			}
+		}
+	}
+	if strings.Contains(e.Spec.Text, "Slice<String>") {
+		e.Sorts.SortOf(types.NewSlice(types.Typ[types.String]))
+	}
 }
 
 func (e *Engine) findPkg(path string) *types.Package { return e.AllPkgs[path] }
@@ -323,4 +346,24 @@ func (e *Engine) pkgByShortName(from *packages.Package, name string) *types.Pack
 		return e.AllPkgs[cands[0]]
 	}
 	return nil
+}
+
+// evalType resolves a Go type expression in the scope of a package, including its files' imports.
+func (e *Engine) evalType(p *packages.Package, expr string) (types.Type, error) {
+	var lastErr error
+	for _, f := range p.Syntax {
+		tv, err := types.Eval(e.Fset, p.Types, f.End()-1, expr)
+		if err == nil && tv.Type != nil {
+			return tv.Type, nil
+		}
+		lastErr = err
+	}
+	tv, err := types.Eval(e.Fset, p.Types, token.NoPos, expr)
+	if err == nil {
+		return tv.Type, nil
+	}
+	if lastErr == nil {
+		lastErr = err
+	}
+	return nil, lastErr
 }
